@@ -24,7 +24,7 @@ ASSUMPTIONS = ['string order is compared on ASCII only (UTF-16 vs code-point ord
 
 
 def plan(tier):
-    return {'stages': [('shard', 14), ('shard_js_values', 2)], 'timeout_s': 3000}
+    return {'stages': [('shard', 13), ('shard_js_values', 2), ('shard_shared', 1)], 'timeout_s': 3000}
 
 
 NUMS = ['1', '2', '3', '10', '9', '100', '-4', '0', '25', '7']
@@ -379,7 +379,68 @@ def shard_js_values(shard, nshards, tier, seed, scratch):
     return {'stats': stats.export(), 'failures': failures}
 
 
+# ---------------------------------------------------------------------------------------------
+# the caller keeps its table objects and edits them between queries: every query sees the current content
+
+SHARED_QUERIES = ['select a1, b2 join b on a1 == b1', 'select a1, b2, bNR left join b on a1 == b1', 'select a1, b2 join b on a1 == b1 && a2 == b2' , 'select a1, b1 join b on NR == bNR',
+                  'select b2, count(*) join b on a1 == b1 group by b2', 'update a2 = b2 join b on a1 == b1', 'select distinct a1', 'select a1 order by a2 desc limit 2']
+SHARED_MUTATIONS = [{'table': 'B', 'op': 'replace-row', 'row': 0, 'value': ['k2', 'z']}, {'table': 'B', 'op': 'edit-cell', 'row': 1, 'col': 0, 'value': 'k3'}, {'table': 'B', 'op': 'edit-cell', 'row': 0, 'col': 1, 'value': 'q'},
+                    {'table': 'B', 'op': 'push-row', 'value': ['k1', 'p2']}, {'table': 'B', 'op': 'pop-row'}, {'table': 'B', 'op': 'swap-rows'}, {'table': 'A', 'op': 'edit-cell', 'row': 0, 'col': 0, 'value': 'k2'},
+                    {'table': 'A', 'op': 'replace-row', 'row': 1, 'value': ['k1', 'q']}, {'table': 'A', 'op': 'swap-rows'}, None]
+
+
+def shard_shared(shard, nshards, tier, seed, scratch):
+    stats = Stats()
+    failures = []
+    drv = jsdriver.Driver()
+    try:
+        for qi, q1 in enumerate(SHARED_QUERIES):
+            for mi, mut in enumerate(SHARED_MUTATIONS):
+                for q2 in SHARED_QUERIES:
+                    A = [['k1', 'p'], ['k2', 'q'], ['k3', 'p']]
+                    B = [['k1', 'p'], ['k2', 'q']]
+                    steps = [{'query': q1}, {'mutate': mut, 'query': q2}, {'query': q1}]
+                    r = drv.call({'cmd': 'query_shared_sequence', 'A': A, 'B': B, 'steps': steps})
+                    stats.evaluations += 1
+                    stats.nontrivial_counted += 1 if mut is not None else 0
+                    for k, res in enumerate(r['results']):
+                        if res['shared'] != res['fresh'] and not failures:
+                            failures.append({'leg': 'shared-tables', 'clause': 'js-result-depends-on-table-object-identity', 'detail': {'queries': [q1, q2, q1], 'edit_before_second_query': mut, 'step': k + 1, 'tables_now': {'A': res['A'], 'B': res['B']},
+                                                                                                                                'with_callers_objects': res['shared'], 'with_fresh_copies': res['fresh']},
+                                             'case': {'kind': 'shared', 'q1': q1, 'q2': q2, 'mut': mut}})
+                    # the Python engine, same sequence on the caller's list objects
+                    pyq = lambda t: t.replace('&&', 'and')
+                    for k, (m, q) in enumerate([(None, q1), (mut, q2), (None, q1)]):
+                        if m is not None:
+                            T = A if m['table'] == 'A' else B
+                            if m['op'] == 'replace-row':
+                                T[m['row']] = list(m['value'])
+                            elif m['op'] == 'edit-cell':
+                                T[m['row']][m['col']] = m['value']
+                            elif m['op'] == 'push-row':
+                                T.append(list(m['value']))
+                            elif m['op'] == 'pop-row':
+                                T.pop()
+                            else:
+                                T[0], T[-1] = T[-1], T[0]
+                        shared = engine.run_table(pyq(q), A, B, None, None)
+                        fresh = engine.run_table(pyq(q), copy.deepcopy(A), copy.deepcopy(B), None, None)
+                        if (shared['out'], shared['error']) != (fresh['out'], fresh['error']) and not failures:
+                            failures.append({'leg': 'shared-tables', 'clause': 'py-result-depends-on-table-object-identity', 'detail': {'queries': [q1, q2, q1], 'edit_before_second_query': mut, 'step': k + 1, 'with_callers_objects': shared, 'with_fresh_copies': fresh},
+                                             'case': {'kind': 'shared', 'q1': q1, 'q2': q2, 'mut': mut}})
+        stats.bump('shared-table-sequences', stats.evaluations)
+        stats.samples.append({'sequence': [SHARED_QUERIES[0], SHARED_MUTATIONS[0], SHARED_QUERIES[0]]})
+    finally:
+        drv.close()
+    return {'stats': stats.export(), 'failures': failures[:1], 'extra': {'exhaustive': True}}
+
+
 def replay(case, clause=None):
+    if case.get('kind') == 'shared':
+        r = shard_shared(0, 1, 'quick', 1, None)
+        if r['failures']:
+            raise Violation(r['failures'][0]['clause'], r['failures'][0]['detail'])
+        return
     if case.get('kind') == 'large':
         from .. import largecases
         drv = jsdriver.Driver()
